@@ -183,6 +183,12 @@ func jwtMutations(r *kit.Rand, b jwtBase, cfg jwtCfg, now int64) []jwtSpec {
 		withClaim(b.claims, "uid", num(0), false), `{}`, b.pJSON + " ", strings.Replace(b.pJSON, "{", "{ ", 1)} {
 		add("payload-keep-signature", strconv.Itoa(i), bearer(h64+"."+b64u.EncodeToString([]byte(pj))+"."+s64))
 	}
+	// 7b. payload shapes, properly signed (the reference decides; none is demanded to pass)
+	past, fut := strconv.FormatInt(now-600, 10), strconv.FormatInt(now+600, 10)
+	for i, pj := range []string{`null`, `[]`, `"x"`, `1`, `{}`, `{`, ``, b.pJSON + ` trailing`, `{"exp":` + past + `,"exp":` + fut + `}`,
+		`{"exp":` + fut + `,"exp":` + past + `}`, `{"EXP":` + past + `}`, `{"exp ":` + past + `}`, ` ` + b.pJSON, `{"nbf":` + fut + `,"exp":` + fut + `}`} {
+		add("payload-shape-resigned", strconv.Itoa(i), bearer(signTok(b.hJSON, pj, b.alg, b.key)))
+	}
 	other := signTok(b.hJSON, withClaim(b.claims, "role", "root", false), b.alg, b.key)
 	oh, op, os := segs(other)
 	add("splice", "other-payload", bearer(h64+"."+op+"."+s64))
